@@ -36,7 +36,7 @@ def judge(case):
     if not same:
         return {"skip": "bg-parsed-differently(C07)"}
     minimum = optim.minimum_for(case)
-    orig = pair.text.rgb
+    orig = optim.true_original(pair, t, bg)  # the library's composite unless it is off the exact blend by more than 1.5 units
     passes = ow.meets(orig, bg, minimum)
     if passes is None:
         return {"skip": "indeterminate-threshold"}
@@ -85,11 +85,15 @@ def _pairs_for_setting(draw):
         text, bg, meta = draw(optim.uniform_pairs())
     kk = draw(st.integers(0, 99))
     if kk < 10:
-        targ, kind = draw(gc.translucent_near(text, bg))
+        targ, kind = draw(gc.translucent_near(text, bg, css4=True))
         tkind = "translucent:" + kind
     else:
         targ, tkind, _ = draw(gc.spell(text))
     barg, bkind, _ = draw(gc.spell(bg, allow_translucent=False))
+    if draw(st.integers(0, 11)) == 0:
+        # the library's other tuple spellings of an opaque background (unit floats / numeric strings)
+        barg = gc.enc(tuple(round(c / 255.0, 3) for c in bg)) if draw(st.booleans()) else gc.enc(tuple(str(c) for c in bg))
+        bkind = "lib-tuple"
     case = {"text": targ, "bg": barg, "large": large, "very": very, "mode": mode, "tkind": tkind, "bkind": bkind, "meta": meta}
     w = draw(optim.warm())
     if w:
